@@ -261,6 +261,24 @@ def run(world, rep, tier, only=None):
     rep.ob("C12.j", site(wu2, "no successful return before the header is written"), not early,
            "zero returns of write_undo_indexes() that skip the header write: lines %s" % early)
 
+    # ------------------------------------------------------------------ C12.k the file system offset is applied once
+    # undo_write_tdb(channel, block, count) takes a block number of the *file system* and adds data->offset itself
+    # when it computes which undo block to save.  A caller that hands it a number that already contains the offset
+    # saves the wrong block whenever the file system does not start at byte 0 of the device.
+    n_k = 0
+    for f in ufile.values():
+        for i, c in enumerate(calls_to(f, "undo_write_tdb")):
+            n_k += 1
+            twice = depends_on(f, arg(c, 1), lambda y: isinstance(y, dict) and y.get("k") == "m" and
+                               T.last_field(y) == ("undo_private_data", "offset"), depth=3)
+            rep.ob("C12.k", site(f, "block number handed to undo_write_tdb is relative to the file system#%d" % i), not twice,
+                   "`%s` does not derive from data->offset (undo_write_tdb adds it)" % T.pp(arg(c, 1))[:40])
+    rep.floor("C12.k callers of undo_write_tdb", n_k, 4)
+    wt_ = ufile.get("undo_write_tdb")
+    adds = [n for n in wt_.events("S") if isinstance(n.ev.get("rhs"), dict) and
+            any(T.last_field(y) == ("undo_private_data", "offset") for y in T.walk(n.ev["rhs"]) if isinstance(y, dict) and y.get("k") == "m")]
+    rep.ob("C12.k", site(wt_, "undo_write_tdb adds the offset"), bool(adds), "data->offset enters the undo block computation in undo_write_tdb")
+
     # ------------------------------------------------------------------ C12.d
     SETUP = [("mke2fs", "misc/mke2fs.c", "mke2fs_setup_tdb"), ("tune2fs", "misc/tune2fs.c", "tune2fs_setup_tdb"),
              ("resize2fs", "resize/main.c", "resize2fs_setup_tdb"), ("e2fsck", "e2fsck/unix.c", "e2fsck_setup_tdb"),
